@@ -46,6 +46,7 @@ type Step struct {
 	Op    string          `json:"op"`
 	N     int             `json:"n"`
 	T     int             `json:"t"`
+	Rel   string          `json:"rel"`
 	Stage string          `json:"stage"`
 	M     Mut             `json:"m"`
 	Must  json.RawMessage `json:"must"`
@@ -157,6 +158,7 @@ type replayer struct {
 	id  string
 
 	shape   string
+	rel     string
 	dead    bool
 	herr    error
 	n, t    int
@@ -334,7 +336,7 @@ func (r *replayer) run() error {
 		}
 		switch st.Op {
 		case "deal":
-			r.n, r.t = st.N, st.T
+			r.n, r.t, r.rel = st.N, st.T, st.Rel
 			switch shape {
 			case "batch":
 				err = r.dealBatch()
@@ -346,6 +348,9 @@ func (r *replayer) run() error {
 		case "tamper":
 			if r.mutKey == "none" {
 				r.mutKey = st.Stage + ":" + st.M.K
+				if r.rel != "" && r.rel != "indep" {
+					r.mutKey = st.Stage + "@" + r.rel + ":" + st.M.K
+				}
 			} else {
 				r.mutKey += "+" + st.M.K
 			}
@@ -850,8 +855,22 @@ func (r *replayer) dealDleq() error {
 	x := make([]kyber.Scalar, n)
 	for i := 0; i < n; i++ {
 		G[i] = s.Point().Mul(s.NonZeroScalar(), nil)
-		H[i] = s.Point().Pick(s.RandomStream())
 		x[i] = s.NonZeroScalar()
+		switch r.rel {
+		case "HeqG": // then xG = xH as well
+			H[i] = G[i].Clone()
+		case "HnegG":
+			H[i] = s.Point().Neg(G[i])
+		case "H2G":
+			H[i] = s.Point().Add(G[i], G[i])
+		case "Hid":
+			H[i] = s.Point().Null()
+		case "Gid":
+			G[i] = s.Point().Null()
+			H[i] = s.Point().Pick(s.RandomStream())
+		default:
+			H[i] = s.Point().Pick(s.RandomStream())
+		}
 	}
 	r.st = make([]*stmt, n)
 	if n == 1 {
